@@ -1,10 +1,10 @@
 package harness
 
 import (
-	"strings"
 	"flag"
 	"fmt"
 	"os"
+	"strings"
 	"testing"
 	"time"
 )
